@@ -199,7 +199,7 @@ module.exports = {
   rule: 'every reference kind (inline data URL, relative, absolute, none, missing, permission denied, directory, mid-read failure, invalid base64 / JSON / VLQ, index map, empty file, 3 MB generated map, two comments, block comment, comment not last) x {chain on/off} x {comments on/off} is enumerated per shard against programs whose strings, regexes, templates and other comments look like the sourceMappingURL comment, with random original maps (1-3 sources, names, sourceRoot, sparse lines, tokens without source). Monitors: emitted map == composition of the plain rewrite map (returned by the same call) with the original map, token by token, under both lookup semantics; plain rewrite map when there is no usable map or chaining is off; exactly one decodable trailer as last line; superseded comment removed when comments are kept; acorn token stream (strings/regexes by value) identical across the four chain/comments settings of the same input. distinct_nontrivial = distinct cases whose emitted map was decided.',
   assumptions: ['an oversized but well-formed map may or may not be chained (both accepted), it must not fail', 'a sourceMappingURL comment that is followed by more code may or may not be honoured (statement silent); text safety and the single trailer are still required', 'sourceRoot may be applied by joining with or without a slash'],
   plan (ctx) {
-    const rounds = ctx.tier === 'thorough' ? 180 : 8
+    const rounds = ctx.tier === 'thorough' ? 400 : 48
     const shards = []
     for (let k = 0; k < rounds; k++) shards.push({ round: k })
     return shards
